@@ -31,6 +31,9 @@ BigSet == <<"set", [i \in 1..12 |-> IF i % 4 = 0 THEN YE("User", <<97, 32, 47, 4
 BigRec == <<"rec", << <<"s", YS(<<34, 47, 47, 34>>)>>, <<"a b", BigSet>>, <<"if", <<"rec", << <<"n", YN(1)>>, <<"b", <<"set", <<>>>>>> >> >>>>,
                       <<"owner", YBin("add", Pn, YN(1))>>, <<"c", <<"rec", <<>>>>>> >> >>
 
+ChainA == One(FoldOp("mul", <<Pn, YN(2), Pn, YN(0 - 3)>>, 4))
+ChainB == One(YBin("less", FoldOp("sub", <<Pn, YN(1), Pn>>, 3), FoldOp("mul", <<YN(2), Pn, YG(YV("context"), "n")>>, 3)))
+ChainC == One(FoldOp("mul", [i \in 1..9 |-> IF i % 2 = 0 THEN YN(100000 + i) ELSE DeepGet(YV("context"), i % 4)], 9))
 FmtTexts == <<
   \* ---- small
   <<YPol("permit", <<>>, AnyS, AnyS, AnyS, <<>>)>>,
@@ -47,6 +50,9 @@ FmtTexts == <<
   One(<<"rec", << <<"if", YN(1)>>, <<"a b", <<"rec", <<>>>>>>, <<"n", <<"set", <<>>>>>> >> >>),
   One(YCall("isInRange", <<Ip1, YCall("ip", <<YS(<<49, 46, 48, 46, 48, 46, 48, 47, 56>>)>>)>>)),
   One(<<"like", YS(<<47, 47, 32, 10, 34>>), <<47, 47, YWild, 42, 92>>>>),
+  \* chains of three and more operands of one multiplicative / additive operator (a comment may stand at every operator)
+  ChainA,
+  ChainB,
   One(<<"or", <<"and", Pn, <<"or", Cs, Pn>>>>, <<"rel", "gt", YBin("mul", YBin("add", Pn, YN(1)), YN(2)), YN(3)>>>>),
   \* blank and white-space-only lines inside string literals, entity ids and annotation values must survive
   <<YPol("permit", << <<"note", <<"s", <<120, 10, 10, 121>>>>>> >>, <<"eq", YEnt("User", <<10, 10, 97>>)>>, AnyS, AnyS,
@@ -57,6 +63,7 @@ FmtTexts == <<
   One(LongChain("and")),
   One(LongChain("or")),
   One(LongArith),
+  ChainC,
   One(YBin("eq", DeepGet(YV("context"), 9), DeepGet(YV("principal"), 4))),
   One(NestIf(4)),
   One(BigSet),
@@ -71,6 +78,8 @@ FmtTexts == <<
 NT == Len(FmtTexts)
 \* quick: each text in one style (rotating); thorough: every text in all four styles
 StyleIdx(t) == (t % 4) + 1
+\* operator chains exist as chains only without redundant parentheses: always also in style "min"
+QuickStyles(t) == {StyleIdx(t)} \cup (IF FmtTexts[t] \in {ChainA, ChainB, ChainC} THEN {1} ELSE {})
 ToksIn(t, si) == SxSetToks(FmtTexts[t], SxAllStyles[si])
 
 \* ------------------------------------------------------------------ comments
@@ -124,7 +133,7 @@ NearTrailingComma(ts, places) ==
   \E x \in 1..Len(places) : HasComment(places[x]) /\ \E k \in 1..Len(ts) : TrailingCommaAt(ts, k) /\ places[x][1] \in {k - 1, k, k + 1}
 
 Fams == {"none", "one", "all", "two", "special", "blank", "eof"}
-FInit == /\ coord \in {k \in Fams \X (1..NT) \X (1..4) : Quick => k[3] = StyleIdx(k[2])}
+FInit == /\ coord \in {k \in Fams \X (1..NT) \X (1..4) : Quick => k[3] \in QuickStyles(k[2])}
          /\ done = FALSE /\ c = <<>>
 FNext == /\ ~done
          /\ done' = TRUE
